@@ -293,7 +293,7 @@ type TLG struct {
 	paramPostF  map[*ssa.Function][]AV // ... when it is false
 	paramT      map[*ssa.Function][]AV
 	paramElemT  map[*ssa.Function][]string // slice parameters whose elements are peer-derived at some call site (its source)
-	fieldT      map[*types.Var]string // integer field -> source description
+	fieldT      map[*types.Var]string      // integer field -> source description
 	fieldElemT  map[*types.Var]string
 	changed     bool
 	warm        bool
@@ -311,6 +311,107 @@ type TLG struct {
 	Sources map[string]int // source description -> count (evidence)
 
 	fns []*ssa.Function
+
+	constParams map[*ssa.Function][]*Iv // unexported, statically-called-only functions: integer parameters every call site passes a constant for
+}
+
+// closedConstParams: for every function of the module that can only be reached through static
+// calls inside the module (unexported, never used as a value, no dynamic call edge), the integer
+// parameters for which every call site passes a constant - the hull of those constants is all
+// the parameter can ever be (readArray(r, 1) / (r, 4) / (r, 8): elemSize in [1, 8]).
+func (t *TLG) closedConstParams() map[*ssa.Function][]*Iv {
+	out := map[*ssa.Function][]*Iv{}
+	open := map[*ssa.Function]bool{}
+	type acc struct {
+		iv  []*Iv
+		bad []bool
+		n   int
+	}
+	sites := map[*ssa.Function]*acc{}
+	for _, f := range t.c.Funcs() {
+		for _, b := range f.Blocks {
+			for _, in := range b.Instrs {
+				ci, isCall := in.(ssa.CallInstruction)
+				var callee *ssa.Function
+				if isCall {
+					callee = ci.Common().StaticCallee()
+				}
+				// any other mention of a function makes it a value
+				for _, op := range in.Operands(nil) {
+					if g, ok := (*op).(*ssa.Function); ok {
+						if !(isCall && g == callee && ci.Common().Value == ssa.Value(g)) {
+							open[core.Origin(g)] = true
+						}
+					}
+				}
+				if callee == nil {
+					continue
+				}
+				if isCall {
+					if _, isGo := in.(*ssa.Go); isGo {
+						// fine: still a static call
+					}
+				}
+				g := core.Origin(callee)
+				if !t.c.P.InModule(g) || len(g.Blocks) == 0 {
+					continue
+				}
+				a := sites[g]
+				if a == nil {
+					a = &acc{iv: make([]*Iv, len(g.Params)), bad: make([]bool, len(g.Params))}
+					sites[g] = a
+				}
+				a.n++
+				args := ci.Common().Args
+				for i := range g.Params {
+					if i >= len(args) {
+						a.bad[i] = true
+						continue
+					}
+					k, ok := constIntVal(stripConv(args[i]))
+					if !ok {
+						a.bad[i] = true
+						continue
+					}
+					a.iv[i] = hull(a.iv[i], &Iv{Lo: bi(k), Hi: bi(k)})
+				}
+			}
+		}
+	}
+	for g, a := range sites {
+		if open[g] || a.n == 0 {
+			continue
+		}
+		if obj := g.Object(); obj == nil || obj.Exported() {
+			continue
+		}
+		// a method may be reached through an interface of its package
+		if g.Signature.Recv() != nil {
+			if n := t.c.P.CallGraph().Nodes[g]; n != nil {
+				dyn := false
+				for _, e := range n.In {
+					if e.Site == nil || e.Site.Common().StaticCallee() == nil {
+						dyn = true
+					}
+				}
+				if dyn {
+					continue
+				}
+			}
+		}
+		any := false
+		res := make([]*Iv, len(g.Params))
+		for i := range g.Params {
+			if !a.bad[i] && a.iv[i] != nil {
+				res[i] = a.iv[i]
+				any = true
+			}
+		}
+		if any {
+			out[g] = res
+		}
+	}
+	return out
 }
 
 func (c *Ctx) TLG() *TLG {
@@ -326,6 +427,7 @@ func (c *Ctx) TLG() *TLG {
 		}
 		t.fns = append(t.fns, f)
 	}
+	t.constParams = t.closedConstParams()
 	// warm-up: what callees establish about their parameters (checking helpers) is needed by the
 	// first round of the main fixpoint already - the parameter summaries only ever grow, so an
 	// argument that is seen unchecked once (because the checker's summary did not exist yet) would
@@ -548,6 +650,9 @@ func (t *TLG) analyze(fn *ssa.Function) {
 			continue
 		}
 		av := AV{P: tr, PExt: true}
+		if cp := t.constParams[core.Origin(fn)]; i < len(cp) && cp[i] != nil {
+			av = AV{P: meet(cp[i], tr)}
+		}
 		if i < len(pt) && pt[i].T != nil {
 			av.T = meet(pt[i].T, tr)
 			av.Mixed = pt[i].Mixed
